@@ -85,7 +85,7 @@ impl<T> HbIter<T> {
     #[verifier::external_body]
     pub unsafe fn reflect_remove(&mut self, b: &HbBucket<T>)
         requires
-            old(self)@.remaining.contains(b@.idx), //@ dep.reflect_remove.expected C05
+            old(self)@.remaining.contains(b@.idx), //@ dep.reflect_remove.expected C05,C17
             b@.table == old(self)@.table, //@ dep.reflect_remove.table C05
             size_of::<T>() != 0, //@ dep.reflect_remove.nonzst C01,C05
         ensures final(self)@.remaining == old(self)@.remaining.remove(b@.idx), final(self)@.table == old(self)@.table,
@@ -168,6 +168,11 @@ pub proof fn axiom_clone_hashed<T, H: Fn(&T) -> u64>(a: TV<T>, b: TV<T>, h: H)
     ensures hashed_by(a, h)
 { }
 
+/// Permission to reach hashbrown's "Hash table capacity overflow" panic. Uninterpreted and never provable: a function
+/// may call a panicking allocation entry point only if its own contract lists this permission, i.e. only the calls
+/// whose documentation announces the panic (with_capacity, reserve, insert, entry insertions) -- never try_reserve.
+pub uninterp spec fn may_panic_on_capacity_overflow() -> bool;
+
 /// hashbrown's internal invariants, available for every table value (trusted)
 #[verifier::external_body]
 pub proof fn axiom_tv_inv<T>(t: HbTable<T>) ensures tv_inv(t@) { }
@@ -178,7 +183,9 @@ impl<T> HbTable<T> {
     pub const fn new() -> (r: Self) ensures tv_empty(r@), r@.growth_left == 0, r@.buckets == 1, tv_inv(r@) { unimplemented!() }
     /// returns only if the capacity was allocatable (else panics "Hash table capacity overflow"/aborts)
     #[verifier::external_body]
-    pub fn with_capacity(c: usize) -> (r: Self) ensures tv_empty(r@), r@.growth_left >= c, c <= isize::MAX, tv_inv(r@) { unimplemented!() }
+    pub fn with_capacity(c: usize) -> (r: Self)
+        requires may_panic_on_capacity_overflow(), //@ dep.with_capacity.documented_panic C10,C01
+        ensures tv_empty(r@), r@.growth_left >= c, c <= isize::MAX, tv_inv(r@) { unimplemented!() }
     #[verifier::external_body]
     pub fn try_with_capacity(c: usize) -> (r: Result<Self, TryReserveError>)
         ensures r matches Ok(t) ==> tv_empty(t@) && t@.growth_left >= c && c <= isize::MAX && tv_inv(t@) { unimplemented!() }
@@ -232,7 +239,9 @@ impl<T> HbTable<T> {
     /// hashbrown 1173: no-op (and hasher unused) unless additional > growth_left
     #[verifier::external_body]
     pub fn reserve(&mut self, additional: usize, hasher: impl Fn(&T) -> u64)
-        requires additional > old(self)@.growth_left ==> forall|t: &T| hasher.requires((t,)), //@ dep.reserve.hasher C02,C17
+        requires
+            additional > old(self)@.growth_left ==> forall|t: &T| hasher.requires((t,)), //@ dep.reserve.hasher C02,C17
+            additional > old(self)@.growth_left ==> may_panic_on_capacity_overflow(), //@ dep.reserve.documented_panic C10,C01
         ensures additional <= old(self)@.growth_left ==> final(self)@ == old(self)@,
             final(self)@.growth_left >= additional, tv_rehashed(final(self)@, old(self)@), tv_inv(final(self)@),
             hashed_by(old(self)@, hasher) ==> hashed_by(final(self)@, hasher),
@@ -269,6 +278,35 @@ impl<T> HbTable<T> {
                 final(self)@.growth_left <= old(self)@.growth_left,
                 r@.table == old(self)@.id,
     { unimplemented!() }
+    /// hashbrown 1339: like insert_no_grow, but gives the value back when there is no room
+    #[verifier::external_body]
+    pub fn try_insert_no_grow(&mut self, hash: u64, value: T) -> (r: Result<HbBucket<T>, T>)
+        ensures match r {
+            Ok(b) => tv_same_shape(final(self)@, old(self)@) && tv_inv(final(self)@) && !old(self)@.items.contains_key(b@.idx)
+                && final(self)@.items == old(self)@.items.insert(b@.idx, value) && final(self)@.hashes == old(self)@.hashes.insert(b@.idx, hash)
+                && final(self)@.elems == old(self)@.elems.insert(value) && final(self)@.items.len() == old(self)@.items.len() + 1
+                && final(self)@.growth_left + 1 >= old(self)@.growth_left && final(self)@.growth_left <= old(self)@.growth_left && b@.table == old(self)@.id,
+            Err(v) => final(self)@ == old(self)@ && v == value,
+        }
+    { unimplemented!() }
+    /// hashbrown 1324: the growing insert, returning a reference instead of the bucket
+    #[verifier::external_body]
+    pub fn insert_entry(&mut self, hash: u64, value: T, hasher: impl Fn(&T) -> u64) -> (r: &mut T)
+        requires forall|t: &T| hasher.requires((t,)),
+        ensures final(self)@.items.len() == old(self)@.items.len() + 1, final(self)@.elems == old(self)@.elems.insert(value), tv_inv(final(self)@),
+                hashed_by(old(self)@, hasher) && hasher.ensures((&value,), hash) ==> hashed_by(final(self)@, hasher),
+    { unimplemented!() }
+    /// hashbrown 1263: find + remove
+    #[verifier::external_body]
+    pub fn remove_entry(&mut self, hash: u64, eq: impl FnMut(&T) -> bool) -> (r: Option<T>)
+        ensures match r {
+            Some(v) => old(self)@.elems.count(v) > 0 && final(self)@.elems == old(self)@.elems.remove(v) && final(self)@.items.len() == old(self)@.items.len() - 1
+                && tv_same_shape(final(self)@, old(self)@) && tv_inv(final(self)@) && tv_sub(final(self)@, old(self)@),
+            None => final(self)@ == old(self)@ && rejects_all(eq, old(self)@, hash),
+        }
+    { unimplemented!() }
+    #[verifier::external_body]
+    pub fn is_empty(&self) -> (r: bool) ensures r == (self@.items.len() == 0) { unimplemented!() }
     /// hashbrown 1380: removes, runs f on the value, puts the result back into the same slot (same ctrl, same growth_left)
     #[verifier::external_body]
     pub unsafe fn replace_bucket_with<F: FnOnce(T) -> Option<T>>(&mut self, bucket: HbBucket<T>, f: F) -> (r: bool)
